@@ -42,6 +42,11 @@ def h_cli(c):
     patched = []
     A.QuantumSignalProcessingPhases = spy_q
     patched.append((A, "QuantumSignalProcessingPhases", real_q))
+    # the command line may hold its own reference (from ... import QuantumSignalProcessingPhases): patch every alias in pyqsp.main
+    for nm, val in list(vars(M).items()):
+        if val is real_q:
+            setattr(M, nm, spy_q)
+            patched.append((M, nm, real_q))
     classes = [getattr(P, n) for n in dir(P) if n.startswith("Poly") and isinstance(getattr(P, n), type)] + [PH.FPSearch, PH.erf_step]
     depth = [0]
     for cls in classes:
